@@ -193,6 +193,26 @@ func main() {
 		}
 		return
 	}
+	// open known findings are not re-attempted in the quick tier (they are reported as
+	// KNOWN-FINDING); the thorough tier attempts them like everything else
+	known0 := loadKnown(*knownPath)
+	if *tier == "quick" {
+		skip := map[string]bool{}
+		for _, k := range known0.Findings {
+			if k.Status == "open" {
+				skip[k.Obligation] = true
+			}
+		}
+		for _, r := range runs {
+			for _, f := range r.encs {
+				for _, ob := range f.obls {
+					if skip[ob.Name] {
+						ob.Result = &SolveResult{Status: "known", Tried: []string{"open known finding: not re-attempted in the quick tier"}}
+					}
+				}
+			}
+		}
+	}
 	for _, r := range runs {
 		solveAll(r.prel, r.encs, tmp, timeout, *workers)
 	}
